@@ -11,7 +11,7 @@ import time
 from . import bootstrap
 from .harness import Ctx, install_watchdog, jdump
 
-SOFT_BUDGET = {'quick': 40.0, 'thorough': 600.0}
+SOFT_BUDGET = {'quick': 120.0, 'thorough': 1200.0}
 HARD_WATCHDOG = {'quick': 1500, 'thorough': 3 * 3600}
 NSHARDS_THOROUGH = int(os.environ.get('VERIF_SHARDS', '16'))
 
